@@ -19,6 +19,13 @@ def gen(rng, i, single):
         if not single and rng.random() < 0.35 and depth >= 1:
             sb["xcancel"] = {"tap": rng.randint(1, depth), "at": rng.choice([0, 1, 20, 60, 120, 160, 260])}
         subs.append(sb)
+    if not single and rng.random() < 0.2:
+        # a cancel() of the outer future is refused (the poll layer's cancel function vetoes it), later somebody else
+        # cancels the polled future itself (now the cancel function agrees): the outer future must still end
+        top = [dict(rng.choice([{"t": "map", "fn": "tag"}, {"t": "timeout", "T": 10 ** 6}, {"t": "throttle", "count": 2}]))
+               for _ in range(rng.choice([1, 2]))]
+        layers = [{"t": "poll", "mode": "never", "cancel_fn": "false_then_true"}] + top
+        subs = [{"S": 0, "script": ["V"], "dur": 50, "thread": 0, "K": [300], "xcancel": {"tap": 2, "at": 600}}]
     return {"base": "pool" if single else rng.choice(["pool", "pool", "sync"]), "workers": rng.choice([1, 2, 3]),
             "layers": layers, "subs": subs, "horizon": 60000}
 
